@@ -220,6 +220,76 @@ func VH_C01_boolean_region_Q() {
 }
 
 
+// The Paths API (Paths.And/Or/Xor/Not): the operands are lists of paths whose elements may have
+// several contours themselves; the result region is the set algebra of the union of the subject
+// elements and the union of the clipping elements, however the contours are distributed over the
+// elements.  Three distributions of the same contours: every contour its own element, all contours
+// of an operand in one element (unsplit), and first contour alone + the rest together.
+func vhC01Paths(polys []vhPgon, dist int) Paths {
+	var ps Paths
+	switch {
+	case dist == 0 || len(polys) < 2:
+		for _, pg := range polys {
+			ps = append(ps, vhPgonPath([]vhPgon{pg}))
+		}
+	case dist == 1:
+		ps = Paths{vhPgonPath(polys)}
+	default:
+		ps = Paths{vhPgonPath(polys[:1]), vhPgonPath(polys[1:])}
+	}
+	return ps
+}
+
+func VH_C01_paths_api_Q() {
+	var pp, qq []vhPgon
+	switch vChoose(0, 2) {
+	case 0: // subject one square; clipping: two disjoint squares, one overlapping the subject
+		pp = []vhPgon{vhRect(0, 0, 6, 6, true)}
+		qq = []vhPgon{vhRect(3, 3, 9, 9, true), vhRect(12, 0, 15, 3, true)}
+	case 1: // subject two squares; clipping a frame (outer + hole) over both
+		pp = []vhPgon{vhRect(0, 0, 4, 4, true), vhRect(6, 0, 10, 4, true)}
+		qq = []vhPgon{vhRect(2, 1, 8, 3, true), vhRect(3, 1.5, 7, 2.5, false)}
+	default: // three clipping contours
+		pp = []vhPgon{vhRect(0, 0, 10, 10, true)}
+		qq = []vhPgon{vhRect(1, 1, 3, 3, true), vhRect(4, 4, 6, 12, true), vhRect(8, -2, 12, 2, true)}
+	}
+	ps, qs := vhC01Paths(pp, vChoose(0, 2)), vhC01Paths(qq, vChoose(0, 2))
+	op := vChoose(0, 3)
+	var r *Path
+	switch op {
+	case 0:
+		r = ps.And(qs)
+	case 1:
+		r = ps.Or(qs)
+	case 2:
+		r = ps.Xor(qs)
+	default:
+		r = ps.Not(qs)
+	}
+	vAssert("C01.paths.wellformed", vhStructWF(r))
+	p, q := vhPgonPath(pp), vhPgonPath(qq)
+	x, y := vNondetF64(), vNondetF64()
+	vAssume(-5 <= x && x <= 25 && -5 <= y && y <= 25)
+	vhBandY(y, -5, 25, p, q, r)
+	wp, c1 := vhWindingAt(p, x, y)
+	wq, c2 := vhWindingAt(q, x, y)
+	wr, c3 := vhWindingAt(r, x, y)
+	vAssume(c1 && c2 && c3)
+	fp, fq := wp != 0, wq != 0
+	want := false
+	switch op {
+	case 0:
+		want = fp && fq
+	case 1:
+		want = fp || fq
+	case 2:
+		want = fp != fq
+	default:
+		want = fp && !fq
+	}
+	vAssert("C01.paths.set_algebra", (wr != 0) == want)
+}
+
 // The repository's own test operands with the region oracle (see c01_suite_data.go).
 func VH_C01_suite_region_Q() {
 	k := vChoose(0, len(vhC01SuitePairs)-1)
